@@ -715,7 +715,7 @@ func runChainCase(c ChainCase) (res kit.Result) {
 
 var _ = kit.Register(kit.Prop[ChainCase]{
 	Name: "ActiveVersionFollowsChain",
-	Rule: "a tree of 2-3 branches of 10-20 real empty blocks (solo engine) whose producers behave differently towards the upgrade (all approve / nobody proposes / propose but never approve / mixed; 8 short parameter sets, cycle of 2-3 versions), every header accepted by the real verifier against its real parent; schedule of 4-10 InsertChain calls (whole branches and parts: reorganisations between the branches) and SetHead rollbacks; after every step VersionForRound(r) and VersionForRoundWithParents(r,nil) for every r <= head+1 must be the parameters of CurrVersion of the canonical header at max(r-8,0), and the canonical headers must be accepted pair by pair and pass the reference state machine. Non-trivial: a step replaced a canonical header by one with a different version at a number the 8-round look-back had already reached and reaches again",
+	Rule: "a tree of 2-3 branches of 10-20 real empty blocks (solo engine) whose producers behave differently towards the upgrade (all approve / nobody proposes / propose but never approve / mixed; 8 short parameter sets, cycle of 2-3 versions), every header accepted by the real verifier against its real parent; schedule of 4-10 InsertChain calls (whole branches and parts: reorganisations between the branches; invalid grafts alone or behind 1-6 of their ancestors) and SetHead rollbacks; in a third of the cases instead: the node imports only the lower part of a branch, the headers of the next 1-9 blocks run ahead (InsertGuaranteedHeaderChain) and the node's own REAL miner worker builds on the head - the verifier must accept the built header after its parent; after every step VersionForRound(r) and VersionForRoundWithParents(r,nil) for every r <= head+1 must be the parameters of CurrVersion of the canonical header at max(r-8,0), and the canonical headers must be accepted pair by pair and pass the reference state machine. Non-trivial: a step replaced a canonical header by one with a different version at a number the 8-round look-back had already reached and reaches again",
 	Gen:  genChainCase, Run: runChainCase,
 	Quick: 400, Thorough: 5000, Chunk: 100, MinNonTrivialPct: 15,
 })
